@@ -5,6 +5,11 @@ package app
 // C14 — fault-injection parameters hit exactly the scheduled requests.
 
 func init() {
+	vHarnesses["vH_C14_status2_testpic2s_c7_c30"] = vH_C14_status2_testpic2s_c7_c30
+	vHarnesses["vH_C14_status2_testpic2s_c10_c60"] = vH_C14_status2_testpic2s_c10_c60
+	vHarnesses["vH_C14_status2_testpic2s_c30_c7"] = vH_C14_status2_testpic2s_c30_c7
+	vHarnesses["vH_C14_status2_audio_c10_c60"] = vH_C14_status2_audio_c10_c60
+	vHarnesses["vH_C14_status2_alt_c10_c60"] = vH_C14_status2_alt_c10_c60
 	vHarnesses["vH_C14_status_testpic2s_c30"] = vH_C14_status_testpic2s_c30
 	vHarnesses["vH_C14_status_testpic2s_c7"] = vH_C14_status_testpic2s_c7
 	vHarnesses["vH_C14_status_testpic2s_c1"] = vH_C14_status_testpic2s_c1
@@ -120,6 +125,68 @@ func vC14Status(a *asset, repID string, cycle int, reps []string) {
 		}
 	}
 	vReach("C14.status.end")
+}
+
+// ---- several simultaneous patterns: the first pattern (in list order) that hits decides, each pattern on its own cycle ----
+
+func vH_C14_status2_testpic2s_c10_c60() { vC14Status2(vAsset_testpic_2s(), "V300", 10, 60) }
+func vH_C14_status2_testpic2s_c7_c30() { vC14Status2(vAsset_testpic_2s(), "V300", 7, 30) }
+func vH_C14_status2_testpic2s_c30_c7() { vC14Status2(vAsset_testpic_2s(), "V300", 30, 7) }
+func vH_C14_status2_audio_c10_c60()    { vC14Status2(vAsset_testpic_2s(), "A48", 10, 60) }
+func vH_C14_status2_alt_c10_c60()      { vC14Status2(vAsset_testpic_alt_seg_dur_stl(), "V300", 10, 60) }
+
+// vC14Hit: segment n is the rsq-th (0-based) of the segments of ref that start in its cycle of `cycle` seconds.
+func vC14Hit(a *asset, ref *RepData, n, cycle, rsq int) bool {
+	cycleTicks := cycle * ref.MediaTimescale
+	c := vSegStartTicks(a, ref, n) / cycleTicks
+	j := n - rsq
+	if j < 0 {
+		return false
+	}
+	if vSegStartTicks(a, ref, j) < c*cycleTicks {
+		return false
+	}
+	if j == 0 {
+		return true
+	}
+	return vSegStartTicks(a, ref, j-1) < c*cycleTicks
+}
+
+func vC14Status2(a *asset, repID string, cycle1, cycle2 int) {
+	vPrepareRegexps(a)
+	rep := a.Reps[repID]
+	ref := rep
+	if rep.ContentType == "audio" {
+		ref = a.refRep
+	}
+	ts := ref.MediaTimescale
+	startNr := vInt("startNr", 0, 1<<20)
+	startS := vInt("startS", 0, 1<<32-1)
+	n := vInt("n", 0, 1<<26)
+	rsq1 := vInt("rsq1", 0, 4)
+	rsq2 := vInt("rsq2", 0, 4)
+	extra := vInt("extra", 0, 60000)
+	cfg := vCfg(startS, startNr, 60)
+	cfg.SegStatusCodes = []SegStatusCodes{{Cycle: cycle1, Rsq: rsq1, Code: 404}, {Cycle: cycle2, Rsq: rsq2, Code: 410}}
+	endTicks := vSegEndTicks(a, ref, n)
+	now := 1000*startS + (1000*endTicks+ts-1)/ts + extra
+	segID := startNr + n
+	segPart := vSegName(rep.MediaURI, segID)
+	vStubRep, vStubSegID = rep, segID
+	code, err := calcStatusCode(cfg, a, segPart, now)
+	vAssert("C14.status2.no-error", err == nil)
+	if err == nil {
+		hit1 := vC14Hit(a, ref, n, cycle1, rsq1)
+		hit2 := vC14Hit(a, ref, n, cycle2, rsq2)
+		if hit1 {
+			vAssert("C14.status2.first-pattern-code", code == 404)
+		} else if hit2 {
+			vAssert("C14.status2.second-pattern-code", code == 410)
+		} else {
+			vAssert("C14.status2.others-normal", code == 0)
+		}
+	}
+	vReach("C14.status2.end")
 }
 
 func vH_C14_traffic_len3() { vC14Traffic(3) }
